@@ -540,6 +540,10 @@ STMTS = [
     # attribute assignment and set blocks aimed directly at the data
     "{% set D.k %}v{% endset %}", "{% set D.k = 1 %}", "{% set d.k, D.j = 1, 2 %}", "{% for i in ys %}{% set D.k %}{{ i }}{% endset %}{% endfor %}",
     "{% macro m(t) %}{% set t.k %}v{% endset %}{% endmacro %}{{ m(D) }}{{ m(d) }}", "{% set D.k | upper %}v{% endset %}",
+    # a tuple assignment that rebinds the namespace name to the data before an attribute target of the same name is stored
+    "{% set ns = namespace() %}{% set ns, ns.k = D, 1 %}", "{% set ns = namespace() %}{% set ns.j, ns, ns.k = 0, D, 1 %}",
+    "{% set ns = namespace() %}{% set ns, ns.a, ns.b = D, 1, 2 %}{{ ns|length }}", "{% set ns = namespace(o=namespace()) %}{% set ns, ns.k = d, 1 %}{% set ns, ns.k = D, 1 %}",
+    "{% macro m(t) %}{% set ns = namespace() %}{% set ns, ns.k = t, 1 %}{% endmacro %}{{ m(D) }}{{ m(d) }}",
 ]
 STMT_PRE = "{% macro cm(v) %}{{ caller(v) }}{% endmacro %}{% macro cm2() %}{{ caller() }}{% endmacro %}"
 ST_T = []
